@@ -1,7 +1,8 @@
 LIBS = ["libvpsc", "libcola", "libavoid", "libtopology", "libdialect"]
 HARNESS = "harness/c19.cpp"
 DRIVER_MODE = "c19"
-LEAN_MODULES = ["AdaptaVerif.Props.C19", "AdaptaVerif.Props.C19Layout", "AdaptaVerif.Props.C19Planarise"]
+LEAN_MODULES = ["AdaptaVerif.Props.C19", "AdaptaVerif.Props.C19Layout", "AdaptaVerif.Props.C19Planarise",
+                "AdaptaVerif.Props.C19PlanariseTie"]
 LEVEL = "proof"
 LEVEL_TEXT = ("Lean 4 theorems about an executable model of dialect::peel and Graph::getConnComps "
               "(partition of nodes/edges, trees connected and acyclic, core without degree-1 nodes, "
@@ -39,7 +40,7 @@ LEVEL_NOTE = ("Proof level covers peel, getConnComps (model theorems are partial
               "routes); cases whose library result depends on std::sort tie handling, heap addresses or double rounding of the running "
               "average are detected and only counted. Every clause is additionally evaluated on the library's own output under the "
               "decidable hypotheses.")
-TECHNIQUE = "Lean 4 theorems (own list-based graph theory) + correspondence harness + verified output checkers"
+TECHNIQUE = "Lean 4 theorems (own list-based graph theory; full sweep-line proofs for the planariser) + correspondence harness + verified output checkers + cpp2lean regeneration of the planariser comparator"
 RULE = ("generated simple graphs (random connected, trees incl. one/two-centre paths, cycles, unicyclic, cores with "
         "hanging trees/paths, disconnected unions; rooted trees of 5-60 nodes fed directly to Tree::symmetricLayout "
         "(random, lopsided, uneven caterpillars/spiders, the 14-node witness family, four growth directions; classes layoutx-*: "
@@ -70,6 +71,18 @@ def _known(idpart):
     except Exception:
         return False
     return any(e.get("property") == "C19" and e.get("status") == "known" and idpart in e.get("id", "") for e in fs)
+
+
+
+def regenerate(ROOT, REPO):
+    """dialect::CompareActiveEvents (libdialect/planarise.cpp), the comparator of the planariser sweep, is regenerated from
+    the C++ by cpp2lean on every run (with the EventType enumerator values from planarise.h) and proved equal to the model's
+    comparator (Props/C19PlanariseTie.lean)"""
+    import sys
+    from pathlib import Path
+    sys.path.insert(0, str(Path(ROOT) / "tools" / "cpp2lean"))
+    import jobs
+    return jobs.regenerate(["planarise_cmp"], Path(ROOT), Path(REPO))
 
 
 def plan(tier, seed, searching):
